@@ -251,11 +251,14 @@ fn hash_part<const P: u128>(case: &HashCase, cached_slot: usize, st: &mut Stats)
                 dt,
                 t
             );
+            // everything this store hands out, with the function it denotes (read by walking it)
+            let mut sem_results: Vec<(BddPtr, Tt, String)> = vec![(d2, dt, "the compiled CNF".into())];
             for round in 0..2 {
                 for v in 0..n {
                     for val in [false, true] {
                         for (neg, base) in [(false, d2), (true, d2.neg())] {
                             let c = rsdd::builder::TopDownBuilder::condition(&sem_b, base, VarLabel::new_usize(v), val);
+                            sem_results.push((c, bdd_tt(c), format!("condition({}compiled, x{} = {}), round {}", if neg { "NOT " } else { "" }, v, val, round)));
                             let want_c = if neg { dt.not().cofactor(v, val) } else { dt.cofactor(v, val) };
                             ensure!(
                                 bdd_tt(c) == want_c,
@@ -291,6 +294,7 @@ fn hash_part<const P: u128>(case: &HashCase, cached_slot: usize, st: &mut Stats)
                     }
                     let want_t = crate::cnfgen::CnfCase::read_back(&sub_obj).tt();
                     let r = sem_b.compile_cnf_topdown(&sub_obj);
+                    sem_results.push((r, bdd_tt(r), format!("compilation #{} in the same store", compiled.len() + 1)));
                     compiled.push((r, want_t));
                     for (k, (p, wt)) in compiled.iter().enumerate() {
                         ensure!(
@@ -308,6 +312,36 @@ fn hash_part<const P: u128>(case: &HashCase, cached_slot: usize, st: &mut Stats)
                 }
                 st.bump("semantic_store_repeated_compilations");
             }
+            // "never judge two equal functions different": within one store a function has one representative,
+            // and its negation is the complemented pointer of that representative
+            let mut canon: std::collections::BTreeMap<Tt, (BddPtr, usize)> = std::collections::BTreeMap::new();
+            for (i, (p, pt, _)) in sem_results.iter().enumerate() {
+                if let Some((q, j)) = canon.get(pt) {
+                    ensure!(
+                        *q == *p,
+                        "C11/semantic-store-two-pointers-for-one-function",
+                        "hash-identified top-down store over GF({}): '{}' and '{}' denote the same function {:?} but are different pointers",
+                        P,
+                        sem_results[*j].2,
+                        sem_results[i].2,
+                        pt
+                    );
+                } else if let Some((q, j)) = canon.get(&pt.not()) {
+                    ensure!(
+                        q.neg() == *p,
+                        "C11/semantic-store-two-pointers-for-one-function",
+                        "hash-identified top-down store over GF({}): '{}' denotes the negation of '{}' ({:?}) but is not its complemented pointer",
+                        P,
+                        sem_results[i].2,
+                        sem_results[*j].2,
+                        pt
+                    );
+                    st.bump("semantic_store_complement_pairs_compared");
+                } else {
+                    canon.insert(*pt, (*p, i));
+                }
+            }
+            st.add("semantic_store_results_compared", sem_results.len() as u64);
         }
     }
     st.add("representations", reps);
